@@ -124,6 +124,44 @@ def fastErodeAt (A : Img Int) (bshape : List Nat) (bc : Array Int) (p : List Int
     if r then 1 else 0
   | _, _ => 0
 
+/-! the erosion branch as the row loops are written -/
+
+/-- `out[j] &= b` on a 0/1 cell of the flat output -/
+def andInto (res : Array Int) (j : Nat) (b : Int) : Array Int :=
+  res.setIfInBounds j (if res.getD j 0 != 0 && b != 0 then 1 else 0)
+
+/-- the row `y + dy` after `if ((y + dy) < 0) dy = -y; if ((y + dy) >= Ny) dy = -y+(Ny-1);` -/
+def fastRow (Ny y : Nat) (dy : Int) : Nat :=
+  let dy : Int := if (y : Int) + dy < 0 then -(y : Int) else dy
+  let dy : Int := if (y : Int) + dy ≥ Ny then -(y : Int) + ((Ny : Int) - 1) else dy
+  ((y : Int) + dy).toNat
+
+/-- one (row, offset) pass of the erosion branch: `orow`/`irow` are the flat starts of the output row
+    `res.data(y)` and of the input row `array.data(y + dy)`; a border loop of `|dx|` iterations ANDs the
+    replicated edge pixel into the far columns, then the main loop of `n = Nx − |dx|` iterations walks
+    the two (shifted) row pointers. -/
+def fastErodeRow (data : Array Int) (Nx orow irow : Nat) (dx : Int) (res : Array Int) : Array Int :=
+  let n := Nx - dx.natAbs
+  if dx > 0 then
+    let res := (List.range dx.toNat).foldl (fun res i =>
+      andInto res (orow + (Nx - i - 1)) (data.getD (irow + (Nx - 1)) 0)) res
+    (List.range n).foldl (fun res i => andInto res (orow + i) (data.getD (irow + dx.toNat + i) 0)) res
+  else if dx < 0 then
+    let res := (List.range (-dx).toNat).foldl (fun res i => andInto res (orow + i) (data.getD irow 0)) res
+    (List.range n).foldl (fun res i => andInto res (orow + (-dx).toNat + i) (data.getD (irow + i) 0)) res
+  else
+    (List.range n).foldl (fun res i => andInto res (orow + i) (data.getD (irow + i) 0)) res
+
+/-- erosion branch of `fast_binary_dilate_erode_2d`, loop by loop (rows, offsets, border loop, main loop). -/
+def fastErodeLoops (A : Img Int) (bshape : List Nat) (bc : Array Int) : Array Int :=
+  match A.shape with
+  | [Ny, Nx] =>
+    let init : Array Int := if centreSet bshape bc then A.data else Array.replicate A.size 1
+    (List.range Ny).foldl (fun res y =>
+      (fastPositions Nx bshape bc true).foldl (fun res d =>
+        fastErodeRow A.data Nx (y * Nx) (fastRow Ny y d.1 * Nx) d.2 res) res) init
+  | _ => A.data
+
 /-- dilation branch (as repaired: scatter with clamp, like the generic kernel). -/
 def fastDilate (A : Img Int) (bshape : List Nat) (bc : Array Int) : Array Int :=
   match A.shape with
@@ -167,7 +205,8 @@ def handle (a : Args) : String :=
     let spec := (allPos shape).map (erodeSpecAt dt A sup)
     let model := (erodeModel dt A sup).toList
     let fast := if dt.isBool && shape.length == 2 then (allPos shape).map (fastErodeAt A bshape bc) else model
-    s!"spec={showInts spec} model={showInts model} fast={showInts fast}"
+    let loops := if dt.isBool && shape.length == 2 then (fastErodeLoops A bshape bc).toList else model
+    s!"spec={showInts spec} model={showInts model} fast={showInts fast} loops={showInts loops}"
   | "dilate" =>
     let spec := (allPos shape).map (dilateSpecAt dt A sup)
     let model := (dilateModel dt A sup).toList
